@@ -143,7 +143,9 @@ def run_check(prop, tier, seed):
             disagreements.append((req, impl, reply, j))
 
     if hasattr(prop, "post_check"):
-        disagreements.extend(prop.post_check(results))
+        for (rq, im, rp, jj) in prop.post_check(results):
+            jj["post"] = True
+            disagreements.append((rq, im, rp, jj))
 
     # classify disagreements
     reported = 0
@@ -169,6 +171,13 @@ def run_check(prop, tier, seed):
                 return False
             return (not jj["agree"]) or (jj.get("spec_ok") is False) or (jj.get("impl_oracle") is False)
         small = req
+        if j.get("post"):
+            # found by a cross-run oracle (twins, thread counts): a single re-run cannot reproduce it
+            payload = {"property": pid, "kind": "correspondence", "request": req, "impl": impl, "model": reply.get("model") if isinstance(reply, dict) else None,
+                       "judgement": j, "concrete_failing_input": bool(j.get("concrete")), "replay": "bin/check %s quick (cross-run oracle: %s)" % (pid, j.get("why", "")[:120])}
+            violations.append(("case-%s" % core.case_hash(req), payload, bool(j.get("concrete"))))
+            reported += 1
+            continue
         try:
             small = core.shrink(req, still_fails, budget=(60 if reported == 0 else 25) if tier == "quick" else 300)
             r = core.run_pipeline([dict(small)])
